@@ -12,6 +12,10 @@ checks = {
          "Every request handed to the scripted backend is checked by a strict validator of the protocol it is addressed in (request line, content-type, control headers, envelope flags and lengths, declared compression vs bytes) and against the negotiation model (kept iff acceptable), over 20k/400k generated scenarios and all 15 protocol subsets.", "5/C02"),
  "C03": ("exploration", "strict per-protocol response validators over the recorder log",
          "Every response delivered to the instrumented client-side ResponseWriter is checked by a strict validator of the client's own protocol (status, content-type, envelopes, declared compression vs bytes, Content-Length, exactly one terminal disposition) over 25k/500k scenarios with varied backend behaviour; pass-through responses are excluded (they are the backend's).", "5/C03"),
+ "C04": ("exploration", "equality of (code, message, details) across the transcoder + published code tables, near-exhaustive small domains",
+         "Codes 1..16 and out-of-range codes x message pool x 0..3 typed details x error position x client forms x target protocols (12k/240k cases, thorough enumerates every HTTP status 300..599 for bare failures); client-decoded error compared with the backend's, HTTP status with the published tables; transcoder panics are violations.", "5/C04"),
+ "C08": ("exploration", "metamorphic comparison against a reference segmentation, exhaustive compositions for streams <= 13 bytes",
+         "Each base scenario is re-executed under ~45 read/write segmentations (client chunkings, handler read buffers 1..8/64/4096, handler write plans) and, in the thorough tier, under all 2^(n-1) compositions of request bodies and response streams of at most 13 bytes; decoded views must be identical to the reference run, raw bytes too wherever nothing is re-encoded in binary form. Adapter-path hooks must all have fired or the run is inconclusive.", "5/C08"),
  "C05": ("exploration", "per-key metadata equality + position check + status-key leak monitor",
          "Random application header/trailer sets are pushed through every client-form/target pairing (20k/300k scenarios); per-key ordered value equality in both directions, trailers in the position the client's protocol defines, no protocol status key in application metadata.", "5/C05"),
 }
